@@ -31,6 +31,7 @@ FEATURES = [
     ("leaf_paths", re.compile(r"\bleaf_paths\b")),
     ("reverse", re.compile(r"\breverse\b")),
     ("paths_filter_in", re.compile(r"\bpaths\(.*\bin\(")),
+    ("paths_filter_on_root", re.compile(r"\bpaths\(")),
 ]
 
 
